@@ -244,6 +244,10 @@ type TableConfig struct {
 	Body    *ast.BlockStmt           // analyse this block instead of the whole function body
 	Bind    map[types.Object]*Val    // pre-bound variables
 	Impure  func(f *types.Func) bool // callees that must be treated as effects even if name looks pure
+	// LoopsOnce makes conditional and range loops run zero or one iteration and
+	// then fall through to the code after the loop (default: a path ends with
+	// outcome "loop-next" at the end of the first iteration).
+	LoopsOnce bool
 }
 
 // Table is a decision table.
@@ -288,6 +292,7 @@ type interp struct {
 	npos    int
 	limits  []int
 	memo    map[string]*Atom
+	stored  map[string]*Val // store forwarding: access path -> last stored value
 	atoms   []*Atom
 	effects []*Effect
 	gen     int
@@ -335,7 +340,7 @@ func ExtractTable(p *Program, fn *types.Func, cfg TableConfig) *Table {
 	}
 	var choices, limits []int
 	for {
-		in := &interp{p: p, cfg: cfg, choices: choices, limits: limits, memo: map[string]*Atom{}}
+		in := &interp{p: p, cfg: cfg, choices: choices, limits: limits, memo: map[string]*Atom{}, stored: map[string]*Val{}}
 		in.limits = in.limits[:len(in.choices)]
 		f := &frame{env: map[types.Object]*Val{}, info: pk.TypesInfo}
 		for k, v := range cfg.Bind {
@@ -545,6 +550,10 @@ func (in *interp) stmt(s ast.Stmt) ctl {
 		case ctlBreak:
 			return ctlNext
 		case ctlNext, ctlContinue:
+			if in.cfg.LoopsOnce && s.Cond != nil {
+				in.effects = append(in.effects, &Effect{Kind: "loop-exit", Str: "after one iteration", Node: s, Gen: in.gen})
+				return ctlNext
+			}
 			return in.end("loop-next", "")
 		}
 		return c
@@ -572,6 +581,10 @@ func (in *interp) stmt(s ast.Stmt) ctl {
 			case ctlBreak:
 				return ctlNext
 			case ctlNext, ctlContinue:
+				if in.cfg.LoopsOnce {
+					in.effects = append(in.effects, &Effect{Kind: "loop-exit", Str: "after one iteration", Node: s, Gen: in.gen})
+					return ctlNext
+				}
 				return in.end("loop-next", "")
 			}
 			return c
@@ -846,6 +859,12 @@ func (in *interp) assign(s *ast.AssignStmt) {
 				e.ArgV = []*Val{vals[i]}
 			}
 			in.effects = append(in.effects, e)
+			// store forwarding: a later read of the same access path sees this value
+			if s.Tok == token.ASSIGN && vals[i] != nil {
+				in.stored[str] = vals[i]
+			} else {
+				delete(in.stored, str)
+			}
 		}
 		return
 	}
@@ -1028,6 +1047,9 @@ func (in *interp) evalInner(e ast.Expr) *Val {
 			base := in.evalNoForce(e.X)
 			path := append(append([]PathElem(nil), basePath(base)...), PathElem{Obj: sel.Obj(), Str: e.Sel.Name})
 			str := base.String() + "." + e.Sel.Name
+			if sv, ok := in.stored[str]; ok && sv != nil {
+				return sv
+			}
 			t := sel.Type()
 			if isIntType(t) || isBoolType(t) {
 				return in.atomVal(str, path, e, t)
@@ -1339,7 +1361,11 @@ func (in *interp) str(e ast.Expr) string {
 		}
 		return e.Name
 	case *ast.SelectorExpr:
-		return in.str(e.X) + "." + e.Sel.Name
+		ss := in.str(e.X) + "." + e.Sel.Name
+		if sv, ok := in.stored[ss]; ok && sv != nil {
+			return sv.String()
+		}
+		return ss
 	case *ast.StarExpr:
 		return "*" + in.str(e.X)
 	case *ast.UnaryExpr:
@@ -1414,6 +1440,10 @@ func (in *interp) recordCallShallow(call *ast.CallExpr, kind string, f *types.Fu
 	}
 	name := in.str(call.Fun)
 	in.gen++
+	if !neutralCallee(f) {
+		// an arbitrary callee may overwrite anything that was stored before
+		in.stored = map[string]*Val{}
+	}
 	e := &Effect{Kind: kind, Callee: f, Recv: recv, RecvS: recvS, Args: args, Str: name + "(" + strings.Join(args, ", ") + ")", Node: call, Gen: in.gen}
 	in.effects = append(in.effects, e)
 	return e
@@ -1589,4 +1619,21 @@ func (in *interp) inline(call *ast.CallExpr, f *types.Func, fd *ast.FuncDecl) *V
 		return &Val{Kind: vSym, Str: "(" + strings.Join(strs, ", ") + ")"}
 	}
 	return &Val{Kind: vSym, Str: "void"}
+}
+
+// neutralCallee reports callees that cannot modify the analysed object's state
+// (locks, logging, formatting, id generation, tracing).
+func neutralCallee(f *types.Func) bool {
+	if f == nil || f.Pkg() == nil {
+		return false
+	}
+	switch f.Pkg().Path() {
+	case "sync", "sync/atomic", "log", "fmt", "errors", "reflect", ModPath + "/tracing", ModPath + "/timing":
+		return f.Pkg().Path() != ModPath+"/timing" || f.Name() == "Generate" || f.Name() == "GetIDGenerator"
+	}
+	switch f.Name() {
+	case "Lock", "Unlock", "RLock", "RUnlock", "InvokeHook", "Generate", "AsRemote":
+		return true
+	}
+	return false
 }
